@@ -69,3 +69,6 @@ const (
 	VerifC20RcvBlocks  = testRcvBlocks
 	VerifC20QueueTimer = testQueueTimer
 )
+
+// VerifC20TxQueueLen is the number of NewTx events waiting for txConfirmLoop (one per tx that entered the pool).
+func (pm *ProtocolManager) VerifC20TxQueueLen() int { return len(pm.txCh) }
